@@ -644,6 +644,28 @@ class SiteWalker(exc.GuardWalker):
         fn = node.func
         d = dotted(fn)
         arg_k = [T.kind_of(f, a) for a in node.args]
+        # map(int, xs) / map(conv, xs) with conv bound to int or float: the
+        # conversion is applied to every element of the text-derived xs
+        if d == "map" and len(node.args) == 2 and \
+                arg_k[1] in ("text", "key", "box"):
+            conv = node.args[0]
+            names = set()
+            if isinstance(conv, ast.Name):
+                names.add(conv.id)
+                for n in walk_no_nested(f.node):
+                    if isinstance(n, ast.Assign) and len(n.targets) == 1 and \
+                            isinstance(n.targets[0], ast.Name) and \
+                            n.targets[0].id == conv.id:
+                        names |= {x.id for x in ast.walk(n.value)
+                                  if isinstance(x, ast.Name)}
+            hit = sorted(names & {"int", "float"})
+            if hit:
+                ok = None
+                if self.in_try({"ValueError"}):
+                    ok = "inside try/except catching ValueError"
+                self.sites.append(dict(kind=hit[0], node=node, ok=ok,
+                                       base=None, param=None, need=None))
+            return
         tainted = any(k in ("text", "key") for k in arg_k)
         if not tainted:
             return
